@@ -46,3 +46,10 @@ package types
 //@ contract interface ICS4Wrapper.SendPacket
 //@   modifies world(ctx)
 //@   ensures ledger_untouched: ledger(ctx) == old(ledger(ctx))
+
+// Writing an acknowledgement through the ICS-4 wrapper writes IBC stores; it is assumed not to move bank balances
+// and not to write the transfer module's escrow totals (A-core-no-bank)
+//@ contract interface ICS4Wrapper.WriteAcknowledgement
+//@   modifies world(ctx)
+//@   ensures ledger_untouched: ledger(ctx) == old(ledger(ctx))
+//@   ensures escrow_totals_untouched: forall d string :: trackedTotal(world(ctx), d) == old(trackedTotal(world(ctx), d))
